@@ -1,7 +1,10 @@
 import M3d.Lemmas.Partition
+import M3d.Lemmas.C2F
 import M3d.Gen.McTable
 import Mathlib.Tactic.Linarith
 import Mathlib.Algebra.Order.Field.Basic
+import Mathlib.Algebra.Order.Field.Rat
+import Mathlib.Tactic.NormNum
 /-!
 # C12 — meshing results do not depend on parallelism, buffering or filtering
 
@@ -12,7 +15,7 @@ the plain meshes are `M3d.Marching.mcMesh/msMesh` (the models C01 is about) over
 REGENERATED from /repo (`M3d.Gen.mcTable/msTable`).
 -/
 namespace M3d.C12
-open M3d.Marching M3d.Partition M3d.Gen
+open M3d.Marching M3d.Partition M3d.Gen M3d.C2F
 
 /-! ## block splitting (`mcBlock.Split`, `msBlock.Split`) -/
 
@@ -283,30 +286,286 @@ theorem raster_indep_of_filter {P : Type} (sh : Shade) (contains : P → Bool) (
   rw [e, ← List.map_flatMap]
   exact (tiles_pixels_perm w h fs hfs).map _
 
-/-! ## coarse-to-fine margin (partial) -/
+/-! ## coarse-to-fine (`MarchingSquaresC2F`, `MarchingCubesC2F`)
 
-/-- `MarchingCubesC2F` keeps a fine block iff its bounds grown by `extraSpace + 2·√3·bigDelta`
-meet the coarse mesh.  PARTIAL: only the covering arithmetic is proved.  Geometric hypothesis,
-stated explicitly ("every feature is seen by the coarse mesh"): the fine cell `[a, a+δ]³` that has
-a sign change meets (on every axis `i`: `a i ≤ c i + Δ`, `c i ≤ a i + δ`) a coarse cell
-`[c, c+Δ]³` that carries a coarse-mesh vertex `v` (`c i ≤ v i ≤ c i + Δ`; vertices stay on the
-edges of their coarse cell also after `mcSearch`).  Then `v` lies in the fine block's bounds
-`[lo, hi]` grown by the margin `m = extra + 2·s·Δ` (`s = √3`), so the rect-collision filter keeps
-the block.  Full statement (not proved): for every solid whose fine sign changes all satisfy the
-hypothesis, `MarchingCubesC2F` = `MarchingCubesSearch` at the fine spacing. -/
-theorem c2f_margin_sound_partial {K : Type} [Field K] [LinearOrder K] [IsStrictOrderedRing K]
-    (lo hi a c v : Fin 3 → K) (δ Δ extra s : K)
-    (hs : s * s = 3) (hs0 : 0 ≤ s) (hΔ : 0 ≤ Δ) (he : 0 ≤ extra)
+Reading of "all coarse spacings that still see every feature" used by the check (and evaluated by
+the DRIVER on every `msc2f`/`mcc2f` case with `R = m`): `seenAll2/3 m R` — every fine cell with a sign
+change is, in the max-norm, within `R·δ` of a coarse cell with a sign change; for `R = m` (one coarse
+spacing) this says: the coarse cell the feature lies in, or one that shares a face, an edge or a
+corner with it, is crossed by the coarse mesh.  Under that hypothesis the theorems below show that
+the filter rejects only blocks without sign change whenever the margin is at least `(R+m)·δ`
+(`= 2·bigDelta` for `R = m`), and hence — by `filter_contrib_perm` — that the C2F face multiset is the
+plain one.  `M3d.C2FMarginTie` proves `2·bigDelta ≤ margin` for the margin expressions REGENERATED
+from the source. -/
+
+/-- A fine cell without sign change draws nothing (rows 0 and 15 of the regenerated table). -/
+theorem c2f_not_mixed_no_segs (lab : Nat → Nat → Bool) (c : Nat × Nat) (h : mixed2 lab c = false) :
+    cellSegs msTable lab c = [] := by
+  have h0 : getRow msTable 0 = [] := by decide
+  have h15 : getRow msTable 15 = [] := by decide
+  unfold mixed2 at h
+  unfold cellSegs
+  by_cases e0 : cellCfg2 lab c.1 c.2 = 0
+  · rw [e0, h0]; rfl
+  · by_cases e1 : cellCfg2 lab c.1 c.2 = 15
+    · rw [e1, h15]; rfl
+    · simp [e0, e1] at h
+
+theorem c2f_not_mixed_no_tris (lab : Nat → Nat → Nat → Bool) (c : Nat × Nat × Nat)
+    (h : mixed3 lab c = false) : cellTris mcTable lab c = [] := by
+  have h0 : getRow mcTable 0 = [] := by decide
+  have h255 : getRow mcTable 255 = [] := by decide
+  unfold mixed3 at h
+  unfold cellTris
+  by_cases e0 : cellCfg lab c.1 c.2.1 c.2.2 = 0
+  · rw [e0, h0]; rfl
+  · by_cases e1 : cellCfg lab c.1 c.2.1 c.2.2 = 255
+    · rw [e1, h255]; rfl
+    · simp [e0, e1] at h
+
+/-- `MarchingSquaresC2F` = `MarchingSquares(Search)` at the fine spacing, discrete core.  For every
+ratio `m`, reach `R`, lattice sizes, fine and coarse labellings, every block oracle `g` (the region
+filter) and every schedule of the worker pool: if the coarse spacing sees every feature with reach
+`R` (`seenAll2`) and the filter keeps every block that contains a cell within reach `R` of a coarse
+sign-change cell (`hkeep`; discharged for the geometric filter by `c2f_ms_sound`), then the faces
+produced are a permutation of the plain fine mesh. -/
+theorem c2f_ms_mesh_eq (m R nx ny cnx cny : Nat) (labF labC : Nat → Nat → Bool)
+    (g : Block2 → Bool) (sched : List (List Block2))
+    (hs : Schedule2 (blockQueue2 g (rootBlock2 nx ny)) sched)
+    (hseen : seenAll2 m R labF labC nx ny cnx cny = true)
+    (hkeep : ∀ b c J, c ∈ b.cells → J ∈ coarseMixed2 labC cnx cny → near2 m R c J = true → g b = true) :
+    (msFilterMesh msTable labF g sched).Perm (msMesh msTable nx ny labF) := by
+  have key : ∀ b, g b = false → ∀ c ∈ b.cells, c ∈ (rootBlock2 nx ny).cells →
+      cellSegs msTable labF c = [] := by
+    intro b hb c hc hroot
+    have h := (List.all_eq_true.1 hseen) c hroot
+    rcases Bool.or_eq_true_iff.1 h with h1 | h2
+    · exact c2f_not_mixed_no_segs labF c (by simpa using h1)
+    · obtain ⟨J, hJ, hn⟩ := List.any_eq_true.1 h2
+      have := hkeep b c J hc hJ hn
+      rw [hb] at this; cases this
+  rw [msMesh_eq_cells]
+  exact filter_contrib_perm2 (cellSegs msTable labF) g (rootBlock2 nx ny) sched hs
+    (fun r hr c hcell => by
+      obtain ⟨e1, e2⟩ := rejected2_spec _ _ g _ r hr
+      exact key r e1 c hcell (e2 c hcell))
+    (fun q hq r hr c hcell => by
+      obtain ⟨e1, e2⟩ := rejected2_spec _ _ g q r hr
+      exact key r e1 c hcell (pieces2_sub _ _ g _ q hq c (e2 c hcell)))
+
+/-- 3-D twin: `MarchingCubesC2F`. -/
+theorem c2f_mc_mesh_eq (m R nx ny nz cnx cny cnz : Nat) (labF labC : Nat → Nat → Nat → Bool)
+    (g : Block → Bool) (sched : List (List Block))
+    (hs : Schedule (blockQueue g (rootBlock nx ny nz)) sched)
+    (hseen : seenAll3 m R labF labC nx ny nz cnx cny cnz = true)
+    (hkeep : ∀ b c J, c ∈ b.cells → J ∈ coarseMixed3 labC cnx cny cnz → near3 m R c J = true → g b = true) :
+    (mcFilterMesh mcTable labF g sched).Perm (mcMesh mcTable nx ny nz labF) := by
+  have key : ∀ b, g b = false → ∀ c ∈ b.cells, c ∈ (rootBlock nx ny nz).cells →
+      cellTris mcTable labF c = [] := by
+    intro b hb c hc hroot
+    have h := (List.all_eq_true.1 hseen) c hroot
+    rcases Bool.or_eq_true_iff.1 h with h1 | h2
+    · exact c2f_not_mixed_no_tris labF c (by simpa using h1)
+    · obtain ⟨J, hJ, hn⟩ := List.any_eq_true.1 h2
+      have := hkeep b c J hc hJ hn
+      rw [hb] at this; cases this
+  rw [mcMesh_eq_cells]
+  exact filter_contrib_perm (cellTris mcTable labF) g (rootBlock nx ny nz) sched hs
+    (fun r hr c hcell => by
+      obtain ⟨e1, e2⟩ := rejected_spec _ _ g _ r hr
+      exact key r e1 c hcell (e2 c hcell))
+    (fun q hq r hr c hcell => by
+      obtain ⟨e1, e2⟩ := rejected_spec _ _ g q r hr
+      exact key r e1 c hcell (pieces_sub _ _ g _ q hq c (e2 c hcell)))
+
+/-- non-vacuity of `c2f_ms_mesh_eq`: a 4×4-cell fine lattice with one inside point, ratio 2, coarse
+lattice 3×3 cells with the same point inside: the coarse pass sees every feature with reach 0, and
+the always-true filter satisfies `hkeep`. -/
+example : seenAll2 2 0 (fun x y => x == 2 && y == 2) (fun x y => x == 1 && y == 1) 4 4 3 3 = true := by
+  decide
+
+/-- The covering arithmetic of the margin, all axes (generalises the former
+`c2f_margin_sound_partial`, which was the case `r = 0`): a fine cell `[a, a+δ]ⁿ` inside a block
+with bounds `[lo, hi]`; a coarse cell `[c, c+Δ]ⁿ` whose max-norm distance to the fine cell is at most
+`r`; a point `v` of that coarse cell (e.g. a coarse-mesh vertex — vertices stay on the edges of
+their coarse cell also after `msSearch/mcSearch`); a margin `M ≥ r + Δ`.  Then `v` lies in the
+block's bounds grown by `M`, so a rect-collision filter over the coarse mesh keeps the block. -/
+theorem c2f_cover {K : Type} [Field K] [LinearOrder K] [IsStrictOrderedRing K] {n : Nat}
+    (lo hi a c v : Fin n → K) (δ Δ r M : K)
     (hblock : ∀ i, lo i ≤ a i ∧ a i + δ ≤ hi i)
-    (hmeet : ∀ i, a i ≤ c i + Δ ∧ c i ≤ a i + δ)
+    (hnear : ∀ i, a i ≤ c i + Δ + r ∧ c i ≤ a i + δ + r)
+    (hv : ∀ i, c i ≤ v i ∧ v i ≤ c i + Δ) (hM : r + Δ ≤ M) :
+    ∀ i, lo i - M ≤ v i ∧ v i ≤ hi i + M := fun i =>
+  cover_axis (lo i) (hi i) (a i) (c i) (v i) δ Δ r M (hblock i).1 (hblock i).2
+    (hnear i).1 (hnear i).2 (hv i).1 (hv i).2 hM
+
+/-- The instance with the constants of the code (both `MarchingSquaresC2F` and `MarchingCubesC2F`
+add `2·bigDelta·√3`; `s` stands for `√3`): reach `r ≤ Δ`, margin `extra + 2·Δ·s` with `extra ≥ 0`.
+(The literal expressions are regenerated from the source and compared with `2·Δ` in
+`M3d.C2FMarginTie`.) -/
+theorem c2f_margin_sound {K : Type} [Field K] [LinearOrder K] [IsStrictOrderedRing K] {n : Nat}
+    (lo hi a c v : Fin n → K) (δ Δ r extra s : K)
+    (hs : s * s = 3) (hs0 : 0 ≤ s) (hΔ : 0 ≤ Δ) (he : 0 ≤ extra) (hr : r ≤ Δ)
+    (hblock : ∀ i, lo i ≤ a i ∧ a i + δ ≤ hi i)
+    (hnear : ∀ i, a i ≤ c i + Δ + r ∧ c i ≤ a i + δ + r)
     (hv : ∀ i, c i ≤ v i ∧ v i ≤ c i + Δ) :
     ∀ i, lo i - (extra + 2 * Δ * s) ≤ v i ∧ v i ≤ hi i + (extra + 2 * Δ * s) := by
   have hs1 : 1 ≤ s := by nlinarith
-  have hm : Δ ≤ extra + 2 * Δ * s := by nlinarith
-  intro i
-  obtain ⟨b1, b2⟩ := hblock i
-  obtain ⟨m1, m2⟩ := hmeet i
-  obtain ⟨v1, v2⟩ := hv i
-  constructor <;> linarith
+  have hm : r + Δ ≤ extra + 2 * Δ * s := by nlinarith [mul_nonneg hΔ (sub_nonneg.2 hs1)]
+  exact c2f_cover lo hi a c v δ Δ r _ hblock hnear hv hm
+
+/-- non-vacuity of `c2f_cover` / `c2f_margin_sound`: over ℚ, a unit fine cell at the origin of a
+block `[0,1]²`, a coarse cell `[2,3]²` at distance `r = 1`, its corner `v = (3,3)`, margin `2`. -/
+example : ∀ _i : Fin 2, (0 : ℚ) - 2 ≤ 3 ∧ (3 : ℚ) ≤ 1 + 2 :=
+  c2f_cover (K := ℚ) (fun _ => 0) (fun _ => 1) (fun _ => 0) (fun _ => 2) (fun _ => 3) 1 1 1 2
+    (fun _ => by norm_num) (fun _ => by norm_num) (fun _ => by norm_num) (by norm_num)
+
+/-- the first row entry of the regenerated marching-squares table for configuration `k` is a
+segment (four corner indices) -/
+def rowHeadOk2 (k : Nat) : Bool :=
+  match getRow msTable k with
+  | [_, _, _, _] :: _ => true
+  | _ => false
+
+def rowHeadOk3 (k : Nat) : Bool :=
+  match getRow mcTable k with
+  | [_, _, _, _, _, _] :: _ => true
+  | _ => false
+
+/-- Every cell with a sign change carries a mesh vertex, and that vertex lies on the cell (doubled
+lattice coordinates: the cell `(x,y)` is `[2x, 2x+2] × [2y, 2y+2]`): rows 1…14 of the REGENERATED
+table are non-empty.  This is the hypothesis `hverts` of `c2f_ms_sound` for the coarse mesh before
+`msSearch` (which keeps every vertex on its lattice edge). -/
+theorem coarse_mixed_cell_has_vertex2 (lab : Nat → Nat → Bool) (c : Nat × Nat)
+    (h : mixed2 lab c = true) :
+    ∃ s ∈ cellSegs msTable lab c, (2 * c.1 ≤ s.1.1 ∧ s.1.1 ≤ 2 * c.1 + 2) ∧
+      (2 * c.2 ≤ s.1.2 ∧ s.1.2 ≤ 2 * c.2 + 2) := by
+  have htab : ∀ k, k < 16 → k ≠ 0 → k ≠ 15 → rowHeadOk2 k = true := by decide
+  have hlt := cellCfg2_lt lab c.1 c.2
+  simp only [mixed2, Bool.and_eq_true, bne_iff_ne, ne_eq] at h
+  have hk := htab _ hlt h.1 h.2
+  unfold rowHeadOk2 at hk
+  unfold cellSegs
+  split at hk
+  · rename_i a0 a1 b0 b1 rest heq
+    rw [heq]
+    refine ⟨(gv2Of c.1 c.2 a0 a1, gv2Of c.1 c.2 b0 b1), by simp, ?_⟩
+    have := cornerOff_le a0 0; have := cornerOff_le a1 0
+    have := cornerOff_le a0 1; have := cornerOff_le a1 1
+    simp only [gv2Of]
+    omega
+  · cases hk
+
+/-- 3-D twin (rows 1…254 of the regenerated marching-cubes table are non-empty). -/
+theorem coarse_mixed_cell_has_vertex3 (lab : Nat → Nat → Nat → Bool) (c : Nat × Nat × Nat)
+    (h : mixed3 lab c = true) :
+    ∃ t ∈ cellTris mcTable lab c, (2 * c.1 ≤ t.1.1 ∧ t.1.1 ≤ 2 * c.1 + 2) ∧
+      (2 * c.2.1 ≤ t.1.2.1 ∧ t.1.2.1 ≤ 2 * c.2.1 + 2) ∧
+      (2 * c.2.2 ≤ t.1.2.2 ∧ t.1.2.2 ≤ 2 * c.2.2 + 2) := by
+  have htab : (List.range 256).all (fun k => k == 0 || k == 255 || rowHeadOk3 k) = true := by
+    decide +kernel
+  have hlt := cellCfg_lt lab c.1 c.2.1 c.2.2
+  simp only [mixed3, Bool.and_eq_true, bne_iff_ne, ne_eq] at h
+  have hk := List.all_eq_true.1 htab _ (List.mem_range.2 hlt)
+  simp only [Bool.or_eq_true, beq_iff_eq, h.1, h.2, false_or] at hk
+  unfold rowHeadOk3 at hk
+  unfold cellTris
+  split at hk
+  · rename_i a0 a1 b0 b1 c0 c1 rest heq
+    rw [heq]
+    refine ⟨(gvOf c.1 c.2.1 c.2.2 a0 a1, gvOf c.1 c.2.1 c.2.2 b0 b1, gvOf c.1 c.2.1 c.2.2 c0 c1),
+      by simp, ?_⟩
+    have := cornerOff_le a0 0; have := cornerOff_le a1 0
+    have := cornerOff_le a0 1; have := cornerOff_le a1 1
+    have := cornerOff_le a0 2; have := cornerOff_le a1 2
+    simp only [gvOf]
+    omega
+  · cases hk
+
+/-- `msSearch` / `mcSearchPoint` (model `M3d.C2F.searchAxis`: `iters` halvings between the outside end
+`f` and the inside end `t` of the lattice edge, then the midpoint) never move a vertex off its
+lattice edge, whatever the solid answers: this is why `hverts` of `c2f_ms_sound` (a vertex in the
+closed box of every coarse sign-change cell, `coarse_mixed_cell_has_vertex2/3` before the search)
+also holds for the searched coarse mesh.  (The bisection is modelled from the source, not tied; on
+the real code the harness checks `hverts` itself for every generated solid, kind `same …-hverts`.) -/
+theorem c2f_search_stays_on_edge {K : Type} [Field K] [LinearOrder K] [IsStrictOrderedRing K]
+    (inside : K → Bool) (iters : Nat) (f t : K) :
+    min f t ≤ searchAxis inside iters f t ∧ searchAxis inside iters f t ≤ max f t :=
+  searchAxis_mem inside (min f t) (max f t) iters f t (min_le_left _ _) (le_max_left _ _)
+    (min_le_right _ _) (le_max_right _ _)
+
+/-- The region filter of `MarchingSquaresC2F` seen as a block oracle: SOME vertex of the coarse
+mesh lies in the block's bounds `Bounds(ε)` grown by `M` (then `collider.RectCollision` of the
+expanded rect is true — completeness of `RectCollision` for a segment with an end point inside the
+rect is C07/C08).  Fine lattice `fx + i·δ`, `fy + j·δ`. -/
+def C2FKeeps2 {K : Type} [Field K] [LinearOrder K] (verts : List (K × K)) (fx fy δ ε M : K)
+    (b : Block2) : Prop :=
+  ∃ v ∈ verts, (fx + b.x0 * δ - ε - M ≤ v.1 ∧ v.1 ≤ fx + b.x1 * δ + ε + M) ∧
+    (fy + b.y0 * δ - ε - M ≤ v.2 ∧ v.2 ≤ fy + b.y1 * δ + ε + M)
+
+def C2FKeeps3 {K : Type} [Field K] [LinearOrder K] (verts : List (K × K × K)) (fx fy fz δ ε M : K)
+    (b : Block) : Prop :=
+  ∃ v ∈ verts, (fx + b.x0 * δ - ε - M ≤ v.1 ∧ v.1 ≤ fx + b.x1 * δ + ε + M) ∧
+    (fy + b.y0 * δ - ε - M ≤ v.2.1 ∧ v.2.1 ≤ fy + b.y1 * δ + ε + M) ∧
+    (fz + b.z0 * δ - ε - M ≤ v.2.2 ∧ v.2.2 ≤ fz + b.z1 * δ + ε + M)
+
+/-- coordinate of the coarse lattice point `J` along an axis whose fine lattice starts at `f`
+(both lattices start one spacing below `s.Min()`: `Min - Δ = f - (m-1)·δ`) -/
+def coarseCoord {K : Type} [Field K] (f δ : K) (m J : Nat) : K := f - ((m : K) - 1) * δ + J * ((m : K) * δ)
+
+/-- `MarchingSquaresC2F` is sound for every coarse spacing that sees every feature: for every
+ratio `m` (`bigDelta = m·smallDelta`), reach `R`, solid (through its two labellings), schedule of the
+worker pool and filter `g` that keeps a block whenever a coarse-mesh vertex lies in its bounds grown
+by `M` — if the coarse spacing sees every feature with reach `R`, the coarse mesh has a vertex on
+every coarse sign-change cell (`hverts`; true of marching squares, see `coarse_mixed_cell_has_vertex2`,
+and preserved by `msSearch`, which moves a vertex along its lattice edge), and `M ≥ (R+m)·δ`, then
+the C2F face multiset is the plain fine one.  With `R = m`: `M ≥ 2·bigDelta`, which the regenerated
+margin satisfies (`M3d.C2FMarginTie.ms_total_margin_covers`). -/
+theorem c2f_ms_sound {K : Type} [Field K] [LinearOrder K] [IsStrictOrderedRing K]
+    (m R nx ny cnx cny : Nat) (labF labC : Nat → Nat → Bool)
+    (g : Block2 → Bool) (sched : List (List Block2))
+    (hs : Schedule2 (blockQueue2 g (rootBlock2 nx ny)) sched)
+    (hseen : seenAll2 m R labF labC nx ny cnx cny = true)
+    (fx fy δ ε M : K) (hδ : 0 ≤ δ) (hε : 0 ≤ ε) (verts : List (K × K))
+    (hverts : ∀ J ∈ coarseMixed2 labC cnx cny, ∃ v ∈ verts,
+      (coarseCoord fx δ m J.1 ≤ v.1 ∧ v.1 ≤ coarseCoord fx δ m J.1 + (m : K) * δ) ∧
+      (coarseCoord fy δ m J.2 ≤ v.2 ∧ v.2 ≤ coarseCoord fy δ m J.2 + (m : K) * δ))
+    (hM : ((R : K) + m) * δ ≤ M)
+    (hg : ∀ b, C2FKeeps2 verts fx fy δ ε M b → g b = true) :
+    (msFilterMesh msTable labF g sched).Perm (msMesh msTable nx ny labF) := by
+  refine c2f_ms_mesh_eq m R nx ny cnx cny labF labC g sched hs hseen ?_
+  intro b c J hc hJ hn
+  obtain ⟨v, hv, ⟨vx1, vx2⟩, ⟨vy1, vy2⟩⟩ := hverts J hJ
+  have hmem := (Block2.mem_cells b c).1 hc
+  simp only [near2, Bool.and_eq_true] at hn
+  apply hg
+  exact ⟨v, hv,
+    block_kept_axis fx δ ε M v.1 hδ hε m R c.1 J.1 b.x0 b.x1 hmem.1 hmem.2.1 hn.1 vx1 vx2 hM,
+    block_kept_axis fy δ ε M v.2 hδ hε m R c.2 J.2 b.y0 b.y1 hmem.2.2.1 hmem.2.2.2 hn.2 vy1 vy2 hM⟩
+
+/-- 3-D twin: `MarchingCubesC2F`. -/
+theorem c2f_mc_sound {K : Type} [Field K] [LinearOrder K] [IsStrictOrderedRing K]
+    (m R nx ny nz cnx cny cnz : Nat) (labF labC : Nat → Nat → Nat → Bool)
+    (g : Block → Bool) (sched : List (List Block))
+    (hs : Schedule (blockQueue g (rootBlock nx ny nz)) sched)
+    (hseen : seenAll3 m R labF labC nx ny nz cnx cny cnz = true)
+    (fx fy fz δ ε M : K) (hδ : 0 ≤ δ) (hε : 0 ≤ ε) (verts : List (K × K × K))
+    (hverts : ∀ J ∈ coarseMixed3 labC cnx cny cnz, ∃ v ∈ verts,
+      (coarseCoord fx δ m J.1 ≤ v.1 ∧ v.1 ≤ coarseCoord fx δ m J.1 + (m : K) * δ) ∧
+      (coarseCoord fy δ m J.2.1 ≤ v.2.1 ∧ v.2.1 ≤ coarseCoord fy δ m J.2.1 + (m : K) * δ) ∧
+      (coarseCoord fz δ m J.2.2 ≤ v.2.2 ∧ v.2.2 ≤ coarseCoord fz δ m J.2.2 + (m : K) * δ))
+    (hM : ((R : K) + m) * δ ≤ M)
+    (hg : ∀ b, C2FKeeps3 verts fx fy fz δ ε M b → g b = true) :
+    (mcFilterMesh mcTable labF g sched).Perm (mcMesh mcTable nx ny nz labF) := by
+  refine c2f_mc_mesh_eq m R nx ny nz cnx cny cnz labF labC g sched hs hseen ?_
+  intro b c J hc hJ hn
+  obtain ⟨v, hv, ⟨vx1, vx2⟩, ⟨vy1, vy2⟩, ⟨vz1, vz2⟩⟩ := hverts J hJ
+  have hmem := (Block.mem_cells b c).1 hc
+  simp only [near3, Bool.and_eq_true] at hn
+  apply hg
+  exact ⟨v, hv,
+    block_kept_axis fx δ ε M v.1 hδ hε m R c.1 J.1 b.x0 b.x1 hmem.1 hmem.2.1 hn.1.1 vx1 vx2 hM,
+    block_kept_axis fy δ ε M v.2.1 hδ hε m R c.2.1 J.2.1 b.y0 b.y1 hmem.2.2.1 hmem.2.2.2.1 hn.1.2 vy1 vy2 hM,
+    block_kept_axis fz δ ε M v.2.2 hδ hε m R c.2.2 J.2.2 b.z0 b.z1 hmem.2.2.2.2.1 hmem.2.2.2.2.2 hn.2 vz1 vz2 hM⟩
 
 end M3d.C12
